@@ -148,6 +148,11 @@ class Curve(CellObject):
 
                 parts[cells[ind, :]] = count
 
+            # vertices that no segment touches are parts of their own
+            isolated = np.setdiff1d(np.arange(parts.shape[0]), cells.ravel())
+            first = count + 1 if cells.shape[0] > 0 else 0
+            parts[isolated] = first + np.arange(isolated.shape[0])
+
             self._parts = parts
 
         return self._parts
